@@ -2813,6 +2813,64 @@ Section Scan.
       destruct (rounds_progress w0 HI HL HT Hd Hf Hfin Hpos B) as (IB & _ & NB & D & [[F R]|(F & TB & M)]); [auto|].
       exfalso. destruct (Hsome _ ltac:(apply IB) TB) as (j & Hj & Ha). fold (N (rounds B w0)) in Hj. rewrite NB in Hj. fold (aw (rounds B w0) j) in Ha. specialize (M j Hj Ha). specialize (Hpos B j Hj TB Ha). specialize (HB j). lia.
     Qed.
+    (* ---- streams as well: the next result (an item, or the end) arrives within B rounds ---- *)
+    Lemma poll_result_ext w pid np : sel w = true -> dropped w = false -> let w' := poll w pid np in
+      g_retpend w' = false -> dropped w' = false -> exists u o, tr w' = tr w ++ u ++ [EEndR o].
+    Proof.
+      intros Hsel Hd. cbv zeta. unfold poll.
+      assert (Hmf : forall w1 o, tr (mark_final w1 o) = tr w1) by (intros w1 o; unfold mark_final; destruct (final o); reflexivity).
+      destruct (pre_exit (cs w)) as [o|]; [intros _ _; exists [EB pid], o; rewrite Hmf; cbn; reflexivity|].
+      set (w0 := begin_poll w pid np).
+      destruct (pre_any (cs w0) && negb (any_ready w0)); [cbn; intros; discriminate|].
+      destruct (order (cs w0)) as [[is s1]|]; [|unfold unwind; cbn; intros; discriminate].
+      destruct (scan_ext is (set_cs w0 s1) pid Hsel) as [v Hv].
+      destruct (scan (set_cs w0 s1) is pid) as [w1|w1|w1 o|w1]; cbn [vworld] in Hv.
+      - destruct (finish (cs w1)) as [s2 [x|]]; [|cbn; intros; discriminate]. intros _ _. exists (EB pid :: v), x. rewrite Hmf. cbn. rewrite Hv. cbn.
+        rewrite <- ?app_assoc. reflexivity.
+      - cbn; intros; discriminate.
+      - intros _ _. exists (EB pid :: v), o. rewrite Hmf. cbn. rewrite Hv. cbn. rewrite <- ?app_assoc. reflexivity.
+      - unfold unwind; cbn; intros; discriminate.
+    Qed.
+
+    Theorem next_result w0 B : Inv w0 -> LiveI w0 -> TS (cs w0) -> dropped w0 = false -> finished w0 = false ->
+      (forall j, rem w0 j <= B) -> 1 <= B ->
+      (forall r j, j < N w0 -> TS (cs (rounds r w0)) -> aw (rounds r w0) j = true -> 1 <= rem (rounds r w0) j) ->
+      (forall s, Q s -> TS s -> exists j, j < slots s /\ awaited s j = true) ->
+      exists r, r < B /\ dropped (rounds (S r) w0) = false /\ g_retpend (rounds (S r) w0) = false /\
+                (forall r', r' <= r -> finished (rounds r' w0) = false) /\
+                exists u o, tr (rounds (S r) w0) = tr (rounds r w0) ++ u ++ [EEndR o].
+    Proof.
+      intros HI HL HT Hd Hf HB HB1 Hpos Hsome.
+      (* as long as every round so far returned Pending, the measure holds *)
+      assert (Hm : forall r, (exists r0, r0 < r /\ dropped (rounds (S r0) w0) = false /\ g_retpend (rounds (S r0) w0) = false /\
+                                (forall r', r' <= r0 -> finished (rounds r' w0) = false) /\
+                                exists u o, tr (rounds (S r0) w0) = tr (rounds r0 w0) ++ u ++ [EEndR o]) \/
+                   (Inv (rounds r w0) /\ LiveI (rounds r w0) /\ N (rounds r w0) = N w0 /\ dropped (rounds r w0) = false /\ TS (cs (rounds r w0)) /\
+                    (forall r', r' <= r -> finished (rounds r' w0) = false) /\
+                    forall j, j < N w0 -> aw (rounds r w0) j = true -> rem (rounds r w0) j + r <= rem w0 j)).
+      { induction r as [|r IH].
+        - right. cbn [rounds]. split; [exact HI|]. split; [exact HL|]. split; [reflexivity|]. split; [exact Hd|]. split; [exact HT|].
+          split; [intros r' Hr'; assert (r' = 0) by lia; subst; exact Hf|]. intros; lia.
+        - destruct IH as [(r0 & Hr0 & X)|(I1 & L1 & N1 & D1 & T1 & F1 & M1)]; [left; exists r0; split; [lia|exact X]|].
+          assert (Fr : finished (rounds r w0) = false) by (apply F1; lia).
+          destruct (round_live _ I1 L1 T1 Fr D1) as (A & B' & C & D & E & F & G). rewrite <- rounds_S in *.
+          destruct (g_retpend (rounds (S r) w0)) eqn:Er.
+          + right. destruct (F eq_refl) as (F0 & F2 & F3 & F4).
+            split; [exact A|]. split; [exact B'|]. split; [congruence|]. split; [exact E|]. split; [exact F0|].
+            split; [intros r' Hr'; destruct (Nat.eq_dec r' (S r)) as [->|Hne]; [exact F2|apply F1; lia]|].
+            intros j Hj Ha. specialize (F3 j Ha). specialize (F4 j ltac:(lia) F3). specialize (M1 j Hj F3). pose proof (Hpos r j Hj T1 F3). lia.
+          + left. exists r. split; [lia|]. split; [exact E|]. split; [exact Er|]. split; [exact F1|].
+            (* the poll of this round is the last operation of the round *)
+            rewrite rounds_S in Er, E |- *. unfold round, run_ops in *. rewrite fold_left_app in *. cbn [fold_left] in *.
+            destruct (run_fires (seq 0 (N (rounds r w0))) (rounds r w0) (rounds r w0) I1 L1 eq_refl) as (I2 & L2 & C2 & S2 & H2 & P2 & D2 & F2 & M2 & B2 & [x Hx]).
+            unfold run_ops in *. set (wf := fold_left step_op (fair_fires (rounds r w0) (seq 0 (N (rounds r w0)))) (rounds r w0)) in *.
+            cbn [step_op] in *. rewrite F2, D2, Fr, D1 in *. cbn [orb] in *.
+            match type of Er with g_retpend (poll wf ?a ?b) = false => destruct (poll_result_ext wf a b (proj1 L2) ltac:(congruence) Er E) as (u & o & Hu) end.
+            exists (x ++ u), o. rewrite Hu, Hx, <- !app_assoc. reflexivity. }
+      destruct (Hm B) as [(r0 & Hr0 & X)|(I1 & L1 & N1 & D1 & T1 & F1 & M1)]; [exists r0; split; [exact Hr0|exact X]|].
+      exfalso. destruct (Hsome _ ltac:(apply I1) T1) as (j & Hj & Ha). fold (N (rounds B w0)) in Hj. rewrite N1 in Hj. fold (aw (rounds B w0) j) in Ha.
+      specialize (M1 j Hj Ha). specialize (Hpos B j Hj T1 Ha). specialize (HB j). lia.
+    Qed.
   End Live.
 
   (* ------------- the wake-up bookkeeping is a function of the observable trace -------------
